@@ -818,6 +818,73 @@ pub fn families(nmax: usize) -> Vec<(String, Vec<Op>)> {
         out.push((format!("big: {} barriers", n), (0..n).flat_map(|i| vec![free(&nm(i)), Op::Barrier]).chain([free("x"), free("y"), Op::Barrier, free("z")]).collect()));
         out.push((format!("big: {} thread-local systems", n), (0..n).map(|_| Op::Tl(SysSpec { name: String::new(), reads: vec![], writes: vec![], time: 3, deps: vec![] })).chain([free("x")]).collect()));
     }
+    // a sink with THREE dependencies whose stages do not follow registration order (a in stage 0, c in stage 1, b in
+    // stage 2, with further stages behind): it belongs right behind the last of them
+    for tail in 0..=3usize {
+        for extra in [false, true] {
+            let mut v = vec![s("a".into(), &[], &[0, 1], 3, vec![]), s("p1".into(), &[], &[0], 3, vec![]), s("b".into(), &[], &[0], 3, vec![])];
+            for i in 0..tail {
+                v.push(s(format!("t{}", i), &[], &[0], 3, vec![]));
+            }
+            v.push(s("c".into(), &[], &[1], 3, vec![]));
+            if extra {
+                v.push(s("e".into(), &[], &[2], 3, vec![]));
+            }
+            let mut deps: Vec<String> = vec!["a".into(), "b".into(), "c".into()];
+            if extra {
+                deps.push("e".into());
+            }
+            v.push(s("sink".into(), &[], &[], 3, deps));
+            out.push((format!("sink-with-dependencies-out-of-stage-order({} stages behind the last dependency{})", tail, if extra { ", a fourth dependency in stage 0" } else { "" }), v));
+        }
+    }
+    // a dependency-free batch (and, for comparison, a plain system) behind a barrier as the 4th..6th group of its stage,
+    // with a roomier stage in front of the barrier
+    for k in 3..=5usize {
+        for plain in [false, true] {
+            let mut v = vec![s("p".into(), &[], &[], 3, vec![]), Op::Barrier];
+            for i in 0..k {
+                v.push(s(format!("q{}", i), &[], &[], 3, vec![]));
+            }
+            if plain {
+                v.push(s("late".into(), &[], &[], 3, vec![]));
+            } else {
+                v.push(Op::Batch(BatchSpec { name: "late".into(), deps: vec![], ctrl: CtrlData::Unit, times: 1, multi: false, fetch_data: false, inner: vec![s("i".into(), &[], &[], 3, vec![])] }));
+            }
+            out.push((format!("crowded-stage-behind-barrier({} groups, then a {})", k, if plain { "system" } else { "batch" }), v));
+        }
+    }
+    // a REJECTED registration (a second system under a name that is taken) in the middle of a sequence: the systems
+    // registered after it, and later dependants of that name, are planned as if the call had never been made
+    for chain in 0..=2usize {
+        for after in 1..=3usize {
+            let mut v: Vec<Op> = Vec::new();
+            let mut prev: Option<String> = None;
+            for i in 0..chain {
+                let n = format!("d{}", i);
+                v.push(s(n.clone(), &[], &[], 3, prev.iter().cloned().collect()));
+                prev = Some(n);
+            }
+            v.push(s("a".into(), &[], &[], 3, prev.iter().cloned().collect()));
+            v.push(s("a".into(), &[], &[0], 3, vec![]));
+            for i in 0..after {
+                v.push(s(format!("c{}", i), &[], &[], if i == 0 { 1 } else { 3 }, vec![]));
+            }
+            v.push(s("b".into(), &[], &[], 2, vec!["a".into()]));
+            out.push((format!("rejected-duplicate-then-dependent(chain of {} in front of the name, {} systems between)", chain, after), v));
+        }
+    }
+    // names of every length 1..80 bytes and around the powers of two up to 1024 (inline buffers, length prefixes):
+    // two conflicting systems and a dependent, so that the name is registered, looked up and printed
+    for n in (1..=80usize).chain([127, 128, 129, 255, 256, 257, 511, 512, 513, 1023, 1024, 1025]) {
+        let long: String = "abcdefghijklmnopqrstuvwxyz-/ .0123456789".chars().cycle().take(n).collect();
+        out.push((format!("name-length({} bytes)", n), vec![s(long.clone(), &[], &[0], 3, vec![]), s("y".into(), &[], &[0], 3, vec![]), s(String::new(), &[0], &[], 3, vec![long.clone()])]));
+        // the same length in 2-byte characters (n even) - a byte count, not a character count
+        if n % 2 == 0 && n <= 80 {
+            let wide: String = "éàüöß".chars().cycle().take(n / 2).collect();
+            out.push((format!("name-length({} bytes, 2-byte characters)", n), vec![s(wide.clone(), &[], &[0], 3, vec![]), s("y".into(), &[], &[0], 3, vec![wide.clone()])]));
+        }
+    }
     // a stage of f groups in front of a barrier; behind it a heavy group, fillers and a light group at index g; then a
     // system that joins the light group for balance and also writes what front group x writes (stage indices that are
     // relative to the barrier in one place and absolute in another)
@@ -1118,6 +1185,8 @@ pub fn run_families(nmax: usize, props: Props, need: Need, deadline: Instant, th
                     st.max_depth = st.max_depth.max(ops.len());
                     let mut p = props;
                     p.c10_all = true;
+                    // (families may contain a rejected call: the rest of the sequence is checked as if it had not been made)
+                    p.continue_after_reject = true;
                     for vi in check_state(&p, ops, &info, &obs, false) {
                         col.add(Finding {
                             prop: vi.prop.to_string(),
